@@ -33,9 +33,11 @@ TRet     == Is("NewRet") /\ IF Ev.ok THEN NewOk ELSE NewErr(Ev.err)
 TEnd     == Is("LifeEnd") /\ LifeEnd
 \* use of the driver between construction and drop is decided by the device-specific specs
 TUse     == Is("Use") /\ UNCHANGED lvars
+\* queue operations of driver-owned queues are decided by VirtQueue.tla
+TQOp     == (Is("QAdd") \/ Is("QPop")) /\ UNCHANGED lvars
 
 TraceNext == TReset \/ TStatus \/ TReadF \/ TWriteF \/ TQSet \/ TQUnset \/ TNotify \/ TDrop \/ TOther
-             \/ TAlloc \/ THolds \/ TFree \/ TFreeSh \/ TRet \/ TEnd \/ TUse
+             \/ TAlloc \/ THolds \/ TFree \/ TFreeSh \/ TRet \/ TEnd \/ TUse \/ TQOp
 TraceSpec == TraceInit /\ [][TraceNext]_tvars
 
 TraceAccepted ==
